@@ -1,6 +1,6 @@
 ----------------------------- MODULE Isa4004_Gen -----------------------------
 EXTENDS Isa4004
-CONSTANTS Cpu, K, Salt
+CONSTANTS Cpu, K, Salt, Step
 VARIABLES form, ops, pc
 INSTANCE IsaGen
 ASSUME TableSane
